@@ -101,12 +101,15 @@ def ownOut (nbSend nbRecv : Option Nat) (j : OwnJ) (o : Out) : OwnJ :=
     else j.fail s!"aio {a} completed although no operation was outstanding on it (completed twice?)"
   | .other s =>
     if s.startsWith "fini " && s != "fini live=0 bytes=0 badfree=0" then
-      j.fail s!"after close and nng_fini the allocator reports: {s}" else j
+      j.fail s!"after close and nng_fini the allocator reports: {s}"
+    else if s.startsWith "ALTERED " then
+      j.fail s!"a failed send handed the message back to the caller ALTERED ({s}): what the caller still owns is not what it submitted"
+    else j
   | _ => j
 
 def ownStep (j : OwnJ) (ev : Ev) (outs : List Out) : OwnJ :=
   if j.err.isSome then j else
-  if outs.any (fun o => match o with | .other s => !(s.startsWith "fini ") | _ => false) then j else
+  if outs.any (fun o => match o with | .other s => !(s.startsWith "fini ") && !(s.startsWith "ALTERED ") | _ => false) then j else
   let (j, nbS, nbR) : OwnJ × Option Nat × Option Nat :=
     match ev with
     | .send _ a _ .nb => (j, some a, none)
